@@ -126,9 +126,10 @@ class Report:
                     und = [o for o in self.obs if o.rule == rule and o.key == key and o.status == UNDECIDED]
                     why = und[0].why if und else 'baseline instance no longer found/decided'
                     incomplete.append((rule, key, why))
-        # a rule without any floor must not pass on "undecided": an obligation it could not decide makes the run incomplete
+        # an obligation the analysis could not decide never passes silently: the run is incomplete (exit 2) whatever the floors say
+        already = {(r, k) for r, k, _ in incomplete}
         for o in self.obs:
-            if o.status == UNDECIDED and o.rule not in baseline:
+            if o.status == UNDECIDED and (o.rule, o.key) not in already:
                 incomplete.append((o.rule, o.key, o.why or 'undecided'))
         # print
         by_rule: Dict[str, Dict[str, int]] = {}
